@@ -58,6 +58,8 @@ class World:
         self.deriv["d1"].list(lambda d: d.ul().spot * 0.5 + 0.1, cost=1e-4)
         self.deriv["d3"].list(lambda d: (d.ul().spot - 1.0).abs() + 0.05, cost=2e-4)
         self.bound: Dict[str, Any] = {}                                   # feature objects that stay bound between operations
+        self.base: Dict[str, Any] = {}                                    # one unbound feature object per kind ...
+        self.handles: Dict[Any, Any] = {}                                 # ... and the handles f.of(d) obtained from it, kept per derivative
         torch.manual_seed(seed)
         self.hedgers = {"h1": self.make_hedger()}
         self.hedgers["h2"] = self.clone_hedger(self.hedgers["h1"], sibling=True)   # same parameters: must agree with h1
@@ -215,6 +217,13 @@ class World:
                 prevb = self.bound.get(key)
                 self.bound[key] = (prevb if prevb is not None else get_feature(f)).of(dv)
                 outs.append(self.bound[key].get(None).flatten())
+                # ... and through a handle obtained ONCE from one unbound feature object that is afterwards bound to the other
+                # derivatives as well (features = [f.of(d) for d in book]): the handle keeps reading its own derivative
+                base = self.base.setdefault(key, get_feature(f))
+                hk = (key, d)
+                if hk not in self.handles:
+                    self.handles[hk] = base.of(dv)
+                outs.append(self.handles[hk].get(None).flatten())
             return torch.cat(outs)
         hedge = [dv.ul(), self.deriv["d2"]] if (self.kind == "identity-single" and False) else None
         if op == "ComputeHedge":
@@ -459,6 +468,95 @@ def repository_test_purity(ctx: Ctx) -> None:
     ctx.sample({"repository_test_call": judged[0]})
 
 
+def reconfigured_objects(ctx: Ctx) -> None:
+    """Objects that are re-configured through their public attributes after they were first used behave like freshly built ones:
+    a hedger whose criterion or model is replaced, a criterion whose parameter is reassigned, an underlier whose cost rate or
+    volatility is changed, a derivative that is re-struck.  (Same seed, same simulated series for the compared pair.)"""
+    from pfhedge.instruments import BrownianStock, EuropeanOption
+    from pfhedge.nn import EntropicLoss, EntropicRiskMeasure, ExpectedShortfall, Hedger
+    dt = torch.float64
+
+    def market(cost=1e-3, sigma=0.2, strike=1.0):
+        st = BrownianStock(cost=cost, sigma=sigma, dt=0.25, dtype=dt)
+        return EuropeanOption(st, maturity=1.0, strike=strike)
+
+    def net(seed):
+        torch.manual_seed(seed)
+        return torch.nn.Sequential(torch.nn.Linear(3, 4, dtype=dt), torch.nn.Tanh(), torch.nn.Linear(4, 1, dtype=dt))
+    feats = ["log_moneyness", "time_to_maturity", "volatility"]
+
+    def outcome(h, d, seed):
+        torch.manual_seed(seed)
+        loss = h.compute_loss(d, n_paths=8).detach()
+        torch.manual_seed(seed)
+        price = h.price(d, n_paths=8).detach()
+        torch.manual_seed(seed)
+        d.simulate(n_paths=8)
+        return {"loss": loss, "price": price, "hedge": h.compute_hedge(d).detach(), "P&L": h.compute_pl(d).detach()}
+
+    cases = []
+    # 1. criterion replaced after construction and first use
+    h = Hedger(net(1), feats, criterion=EntropicRiskMeasure(1.0)); outcome(h, market(), 5)
+    h.criterion = ExpectedShortfall(0.5)
+    cases.append(("hedger.criterion replaced", h, market(), Hedger(net(1), feats, criterion=ExpectedShortfall(0.5)), market()))
+    # 2. a criterion whose parameter is reassigned
+    h = Hedger(net(2), feats, criterion=EntropicLoss(1.0)); outcome(h, market(), 5)
+    h.criterion.a = 2.0
+    cases.append(("criterion.a reassigned", h, market(), Hedger(net(2), feats, criterion=EntropicLoss(2.0)), market()))
+    # 3. model replaced
+    h = Hedger(net(3), feats, criterion=EntropicRiskMeasure(1.0)); outcome(h, market(), 5)
+    h.model = net(4)
+    cases.append(("hedger.model replaced", h, market(), Hedger(net(4), feats, criterion=EntropicRiskMeasure(1.0)), market()))
+    # 4. the underlier's cost rate and volatility changed, the derivative re-struck, after everything was used once
+    h = Hedger(net(5), feats, criterion=EntropicRiskMeasure(1.0)); d_used = market(); outcome(h, d_used, 5)
+    d_used.ul().cost = 5e-2; d_used.ul().sigma = 0.4; d_used.strike = 1.25
+    cases.append(("underlier cost / sigma and derivative strike changed", h, d_used, Hedger(net(5), feats, criterion=EntropicRiskMeasure(1.0)), market(5e-2, 0.4, 1.25)))
+    for label, used, d1, fresh, d2 in cases:
+        try:
+            a, b = outcome(used, d1, 77), outcome(fresh, d2, 77)
+        except Exception as e:
+            ctx.violation("reconfigured:raises", f"{label}: {type(e).__name__}", {"error": repr(e)[:200]})
+            continue
+        for k in a:
+            ctx.count(n=1)
+            if a[k].shape != b[k].shape or not torch.equal(a[k], b[k]):
+                ctx.violation(f"reconfigured:{k}", f"{label}: {k} differs from a freshly built hedger / market with the same configuration",
+                              {"case": label, "used": a[k].flatten().tolist()[:4], "fresh": b[k].flatten().tolist()[:4]})
+                break
+
+
+def bound_handles(ctx: Ctx) -> None:
+    """handles = [f.of(d) for d in book] from ONE feature object: every handle keeps reading the derivative it was bound to,
+    whatever the feature object is bound to afterwards (derivatives of different shapes and dtypes)."""
+    from pfhedge.features import Barrier, FeatureList, get_feature
+    from pfhedge.features.features import UnderlierLogSpot
+    from pfhedge.instruments import BrownianStock, EuropeanOption, HestonStock, LookbackOption
+    torch.manual_seed(3)
+    d1 = EuropeanOption(BrownianStock(dt=0.25, dtype=torch.float64), maturity=1.0); d1.simulate(n_paths=3)
+    d2 = LookbackOption(HestonStock(dt=0.125, dtype=torch.float32), maturity=1.0, strike=1.1); d2.simulate(n_paths=4)
+    names = ["moneyness", "log_moneyness", "max_moneyness", "max_log_moneyness", "time_to_maturity", "expiry_time", "volatility", "variance", "underlier_spot",
+             "zeros", Barrier(1.05), UnderlierLogSpot()]           # ("empty" is documented as uninitialised memory: no value to compare)
+    for f in names + [FeatureList(["moneyness", "time_to_maturity"])]:
+        label = f if isinstance(f, str) else type(f).__name__
+        try:
+            base = get_feature(f) if not isinstance(f, FeatureList) else f
+            h1 = base.of(d1)
+            v1 = h1.get(None).clone()
+            h2 = base.of(d2)
+            v2 = h2.get(None).clone()
+            again1 = h1.get(None)
+            fresh2 = (get_feature(f) if not isinstance(f, FeatureList) else FeatureList(["moneyness", "time_to_maturity"])).of(d2).get(None)
+        except Exception as e:
+            ctx.violation("handles:raises", f"binding one {label} feature object to two derivatives raised {type(e).__name__}", {"error": repr(e)[:200]})
+            continue
+        ctx.count(n=2)
+        if again1.shape != v1.shape or again1.dtype != v1.dtype or not torch.equal(again1, v1):
+            ctx.violation("handles:rebound", f"the handle {label}.of(d1) reads another derivative after the same feature object was bound to d2",
+                          {"feature": label, "shape_before": list(v1.shape), "shape_after": list(again1.shape)})
+        elif not torch.equal(v2, fresh2):
+            ctx.violation("handles:second", f"{label}.of(d2) obtained from a feature object that had been bound to d1 differs from a fresh feature bound to d2", {"feature": label})
+
+
 def check(ctx: Ctx) -> None:
     warnings.filterwarnings("ignore")
     ex = ctx.tlc("MC_Session", "MC_Session_q_d3.cfg" if ctx.tier == "quick" else "MC_Session_t_d4.cfg", workers=8)
@@ -484,6 +582,8 @@ def check(ctx: Ctx) -> None:
         ctx.distinct.add(json.dumps([KINDS[k % len(KINDS)], key]))
         n += 1
     ctx.sections["interleavings_replayed"] = n
+    reconfigured_objects(ctx)
+    bound_handles(ctx)
     # ---- "... or dtypes the same hedger or features were used with before": behaviours of the dtype machine (Dtype.tla:
     # to()/float()/double()/half()/simulate()/register_buffer/set_default_dtype) with hedger objects that live through them,
     # compared after every operation with freshly built ones (the replay of checks/c17.py; only its reuse verdicts count here)
